@@ -1,6 +1,347 @@
 package props
 
-import "rendsim/wire"
+import (
+	"fmt"
+	"strings"
+	"testing"
+
+	"rendsim/kernel"
+	"rendsim/wire"
+)
+
+// C08 — reply discipline: one well-formed reply per request, one terminator per get.
+//
+// The oracle is the strict decoder plus attribution: text replies are consumed in
+// request order, binary replies are attributed by opaque. The reference map is
+// consulted only to know how many hits a get must produce.
+
+// splitText distributes strictly decoded text frames over the pipelined requests.
+// It returns per-request frames, or a discipline problem.
+func splitText(ops []wire.Op, frames []wire.TextFrame) (per [][]wire.TextFrame, problem string) {
+	per = make([][]wire.TextFrame, len(ops))
+	i := 0
+	for oi, op := range ops {
+		switch op.Kind {
+		case "get":
+			done := false
+			for i < len(frames) && !done {
+				f := frames[i]
+				per[oi] = append(per[oi], f)
+				i++
+				if !f.IsVal {
+					done = true
+				}
+			}
+			if !done {
+				return per, fmt.Sprintf("request #%d (%s) has no terminator", oi, op)
+			}
+		case "stats":
+			done := false
+			for i < len(frames) && !done {
+				f := frames[i]
+				per[oi] = append(per[oi], f)
+				i++
+				if f.Line == "END" || !strings.HasPrefix(f.Line, "STAT ") {
+					done = true
+				}
+			}
+			if !done {
+				return per, fmt.Sprintf("request #%d (stats) has no terminator", oi)
+			}
+		case "quit":
+			if i < len(frames) {
+				per[oi] = append(per[oi], frames[i])
+				i++
+			}
+		default:
+			if i >= len(frames) {
+				return per, fmt.Sprintf("request #%d (%s) got no reply", oi, op)
+			}
+			per[oi] = append(per[oi], frames[i])
+			i++
+		}
+	}
+	if i < len(frames) {
+		return per, fmt.Sprintf("%d reply element(s) beyond the last request, first: %s", len(frames)-i, frames[i])
+	}
+	return per, ""
+}
+
+// opaques owned by a binary request
+func ownsOpaque(op wire.Op, opq uint32) bool {
+	if op.Kind == "get" {
+		n := uint32(len(op.Keys))
+		if op.Noop {
+			n++
+		}
+		return opq >= op.Opaque && opq < op.Opaque+n
+	}
+	return opq == op.Opaque
+}
+
+func splitBin(ops []wire.Op, frames []wire.BinFrame) (per [][]wire.BinFrame, problem string) {
+	per = make([][]wire.BinFrame, len(ops))
+	for _, f := range frames {
+		owner := -1
+		for oi, op := range ops {
+			if ownsOpaque(op, f.Opaque) {
+				owner = oi
+				break
+			}
+		}
+		if owner < 0 {
+			return per, fmt.Sprintf("reply frame %s carries an opaque that no request sent", f)
+		}
+		per[owner] = append(per[owner], f)
+	}
+	return per, ""
+}
+
+// disciplineOf checks the reply to one request. hits is the number of keys of a
+// get the reference map holds (−1 when unknown).
+func disciplineOf(proto string, op wire.Op, o Obs, nframes int, hits int, expectFail bool) []string {
+	probs := append([]string(nil), o.Discipline...)
+	switch op.Kind {
+	case "get":
+		if hits >= 0 && o.Status == "ok" && len(o.Values) != hits {
+			probs = append(probs, fmt.Sprintf("get answered %d values, the map holds %d of the requested keys", len(o.Values), hits))
+		}
+		if proto == "text" && o.Term != 1 {
+			probs = append(probs, fmt.Sprintf("%d END lines", o.Term))
+		}
+	case "set", "add", "replace", "append", "prepend":
+		if op.Quiet && proto == "bin" {
+			if !expectFail && nframes != 0 {
+				probs = append(probs, fmt.Sprintf("quiet %s that succeeded got %d replies", op.Kind, nframes))
+			}
+			if expectFail && nframes != 1 {
+				probs = append(probs, fmt.Sprintf("quiet %s that failed got %d replies", op.Kind, nframes))
+			}
+		} else if nframes != 1 {
+			probs = append(probs, fmt.Sprintf("%s got %d replies", op.Kind, nframes))
+		}
+	case "delete", "touch", "gat", "noop", "version":
+		if nframes != 1 {
+			probs = append(probs, fmt.Sprintf("%s got %d replies", op.Kind, nframes))
+		}
+	}
+	return probs
+}
 
 func (e *seqEnv) checkDiscipline(i int, proto string, op wire.Op, o Obs, reply []byte, class string) {
+	if o.Garbage != "" {
+		e.violate(i, "frame", class, "reply to %s is not well formed: %s (%q)", op, o.Garbage, trunc(reply))
+		return
+	}
+	if o.Incomplete {
+		e.violate(i, "incomplete", class, "reply to %s ends inside a frame although the system is quiescent (%q)", op, trunc(reply))
+		return
+	}
+}
+
+// pipeStep executes a pipeline of requests sent as one byte stream on one connection.
+func (e *seqEnv) pipeStep(i int, st Step) {
+	w := e.w
+	if e.dead[st.Conn] {
+		return
+	}
+	cc := e.conns[st.Conn]
+	proto := e.plan.Conns[st.Conn].Proto
+	var data []byte
+	for _, op := range st.Pipe {
+		data = append(data, encode(proto, op)...)
+	}
+	alignClock(w)
+	w.KeepWaiting = nil
+	if !w.Send(cc, data) {
+		e.violate(i, "no_quiescence", "pipe", "the system did not become quiescent after a pipeline of %d requests", len(st.Pipe))
+		return
+	}
+	reply := append([]byte(nil), cc.Unread()...)
+	cc.Consume(len(reply))
+	closed := cc.C.ClosedByRend()
+	class := e.plan.Conns[st.Conn].Port + "/" + proto
+	kinds := func() string {
+		var ks []string
+		for _, op := range st.Pipe {
+			ks = append(ks, op.Kind)
+		}
+		return strings.Join(ks, ",")
+	}
+	// model: number of hits / expected failure per request
+	type exp struct {
+		hits int
+		fail bool
+	}
+	exps := make([]exp, len(st.Pipe))
+	quit := false
+	for oi, op := range st.Pipe {
+		ex := applyModel(e.ref, op)
+		exps[oi] = exp{hits: len(ex.Hits), fail: ex.Outcome != 0}
+		if op.Kind == "quit" {
+			quit = true
+		}
+	}
+	if closed && !quit {
+		e.dead[st.Conn] = true
+		e.violate(i, "closed", class, "rend closed the connection while serving the pipeline [%s] (replies so far %q)", kinds(), trunc(reply))
+		return
+	}
+	if quit {
+		e.dead[st.Conn] = true
+	}
+	if proto == "text" {
+		frames, rest, err := wire.ParseText(reply)
+		if err != nil {
+			e.violate(i, "frame", class, "pipeline [%s]: reply stream is not well formed: %v (%q)", kinds(), err, trunc(reply))
+			return
+		}
+		if len(rest) > 0 {
+			e.violate(i, "incomplete", class, "pipeline [%s]: reply stream ends inside a frame although the system is quiescent (%q)", kinds(), trunc(rest))
+			return
+		}
+		per, prob := splitText(st.Pipe, frames)
+		if prob != "" {
+			e.violate(i, "attribution", class, "pipeline [%s]: %s; replies %q", kinds(), prob, trunc(reply))
+			return
+		}
+		for oi, op := range st.Pipe {
+			var o Obs
+			decodeTextFrames(&o, op, per[oi])
+			finishObs(&o, false)
+			if ps := e.textExtra(op, per[oi]); ps != "" {
+				e.violate(i, "shape", class+"/"+op.Kind, "pipeline [%s] request #%d %s: %s", kinds(), oi, op, ps)
+				return
+			}
+			if op.Kind == "stats" || op.Kind == "noop" || op.Kind == "version" || op.Kind == "quit" || op.Kind == "raw" {
+				continue
+			}
+			if ps := disciplineOf(proto, op, o, len(per[oi]), exps[oi].hits, exps[oi].fail); len(ps) > 0 {
+				e.violate(i, "discipline", class+"/"+op.Kind, "pipeline [%s] request #%d %s: %s; replies %q", kinds(), oi, op, strings.Join(ps, "; "), trunc(reply))
+				return
+			}
+		}
+		return
+	}
+	frames, rest, err := wire.ParseBinary(reply)
+	if err != nil {
+		e.violate(i, "frame", class, "pipeline [%s]: reply stream is not well formed: %v (%q)", kinds(), err, trunc(reply))
+		return
+	}
+	if len(rest) > 0 {
+		e.violate(i, "incomplete", class, "pipeline [%s]: reply stream ends inside a frame although the system is quiescent", kinds())
+		return
+	}
+	per, prob := splitBin(st.Pipe, frames)
+	if prob != "" {
+		e.violate(i, "attribution", class, "pipeline [%s]: %s", kinds(), prob)
+		return
+	}
+	for oi, op := range st.Pipe {
+		if op.Kind == "stats" {
+			// key/value packets followed by an empty terminating packet, all echoing the opaque
+			fs := per[oi]
+			if len(fs) < 1 || len(fs[len(fs)-1].Key) != 0 || len(fs[len(fs)-1].Value) != 0 {
+				e.violate(i, "shape", class+"/stats", "pipeline [%s] request #%d stats: %d packets echo the opaque and the last one is not the empty terminator", kinds(), oi, len(fs))
+				return
+			}
+			continue
+		}
+		if op.Kind == "quit" || op.Kind == "raw" {
+			continue
+		}
+		var o Obs
+		decodeBinFrames(&o, op, per[oi])
+		finishObs(&o, false)
+		if ps := disciplineOf(proto, op, o, len(per[oi]), exps[oi].hits, exps[oi].fail); len(ps) > 0 {
+			e.violate(i, "discipline", class+"/"+op.Kind, "pipeline [%s] request #%d %s: %s", kinds(), oi, op, strings.Join(ps, "; "))
+			return
+		}
+	}
+}
+
+// textExtra checks the shape of text replies that decodeTextFrames does not know.
+func (e *seqEnv) textExtra(op wire.Op, fs []wire.TextFrame) string {
+	switch op.Kind {
+	case "version":
+		if len(fs) != 1 || !strings.HasPrefix(fs[0].Line, "VERSION ") {
+			return fmt.Sprintf("version answered %v", fs)
+		}
+	case "stats":
+		if len(fs) < 1 || fs[len(fs)-1].Line != "END" {
+			return fmt.Sprintf("stats answered %v", fs)
+		}
+	case "noop":
+		if len(fs) != 1 || fs[0].IsVal {
+			return fmt.Sprintf("noop answered %v", fs)
+		}
+	case "raw":
+		// a malformed or unknown command line must be answered by exactly one error line
+		if len(fs) != 1 || !(strings.HasPrefix(fs[0].Line, "ERROR") || strings.HasPrefix(fs[0].Line, "CLIENT_ERROR") || strings.HasPrefix(fs[0].Line, "SERVER_ERROR")) {
+			return fmt.Sprintf("bad command line answered %v", fs)
+		}
+	}
+	return ""
+}
+
+func genC08(seed uint64, tier string) Plan {
+	g := newGen(seed)
+	p := Plan{Prop: "C08", Seed: seed, Cfg: g.cfgStd(), Seg: pick(g, []int{0, 2, 2, 1})}
+	if g.p(1, 2) {
+		p.Cfg.Locked = true
+		p.Cfg.MultiReader = g.p(1, 2)
+		p.Cfg.Concurrency = uint8(g.n(3))
+	}
+	p.Conns = g.conns(p.Cfg, 2)
+	keys := keyAlphabet[:1+g.n(3)]
+	now := int64(946684800)
+	var opq uint32 = 1000
+	npipes := 2 + g.n(6)
+	for i := 0; i < npipes; i++ {
+		c := g.n(len(p.Conns))
+		proto := p.Conns[c].Proto
+		n := 1 + g.n(6)
+		var pipe []wire.Op
+		for j := 0; j < n; j++ {
+			switch {
+			case g.p(1, 8):
+				opq += 10
+				o := wire.Op{Kind: pick(g, []string{"noop", "version", "stats"}), Opaque: opq}
+				if proto == "text" {
+					o.Opaque = 0
+				}
+				pipe = append(pipe, o)
+			case proto == "text" && g.p(1, 8):
+				// malformed / unknown command lines (sent without a data block)
+				raw := pick(g, []string{"bogus\r\n", "set k abc 0 5\r\n", "set k 0 xyz 5\r\n", "set k 0 0 -1\r\n", "touch k notanumber\r\n", "delete\r\n", "get\r\n", "incr k 1\r\n", "set k 0 0\r\n"})
+				pipe = append(pipe, wire.Op{Kind: "raw", Raw: []byte(raw)})
+			default:
+				pipe = append(pipe, g.dataOp(proto, keys, now, false, &opq))
+			}
+		}
+		p.Steps = append(p.Steps, Step{Conn: c, Pipe: pipe})
+	}
+	return p
+}
+
+func execC08(t *testing.T, p Plan, src kernel.Source) Result {
+	return execSeq(t, p, src, seqOpts{Discipline: true})
+}
+
+func init() {
+	register(&Prop{
+		ID: "C08", Gen: genC08, Exec: execC08,
+		Nontrivial: func(p Plan, r Result) bool {
+			for _, s := range p.Steps {
+				if len(s.Pipe) > 1 {
+					return true
+				}
+			}
+			return false
+		},
+		Rule:      "seeded pipelines (1-6 requests per byte stream, several pipelines per connection) of all supported requests incl. failing ones, quiet sets, multi-key and quiet gets, noop/version/stats, unknown and malformed text command lines x deployment shape x locking wrapper x protocol x segmentation; non-trivial = some pipeline holds more than one request; distinct = distinct plan hash",
+		Real:      realFullStack,
+		Stub:      stubFullStack,
+		RunsQuick: 5000, RunsThorough: 120000,
+	})
 }
